@@ -30,7 +30,11 @@ ASSUMPTIONS = [
   "the per (match, frame) predicate is input-quantified; simulation samples "
   "it inside table histories and does not enumerate 2^10 x 33 x 33",
   "only canonical matches are generated (DESIGN.md 5a); ECN bits zero; "
-  "ARP opcodes <= 255; exact-match entries only for IPv4 TCP/UDP/ICMP",
+  "exact-match entries only for IPv4 TCP/UDP/ICMP",
+  "a datagram cut off inside its TCP/UDP/ICMP header has no tp_src/tp_dst "
+  "and an ARP packet whose opcode exceeds 255 has no nw_proto/nw_src/"
+  "nw_dst: such a frame matches an entry only if the entry wildcards those "
+  "fields (also when the required value is 0)",
   "among equal-priority overlapping entries OF1.0 leaves the winner open: "
   "the model accepts any of them and follows the implementation's choice",
 ]
@@ -41,7 +45,8 @@ REAL = ["pox.openflow.libopenflow_01.ofp_match (from_packet, "
         "OFConnection / IO worker / recoco scheduler"]
 STUBBED = ["socket/select/time/pinger (simkit)", "controller peer (scripted)",
            "hosts (frames injected)"]
-EXPECT_PROBES = ["lookup_hit", "lookup_miss", "lookup_tie", "lookup_exact"]
+EXPECT_PROBES = ["lookup_hit", "lookup_miss", "lookup_tie", "lookup_exact",
+                 "frame_lacks_a_field"]
 
 
 def gen_plan(seed, tier):
@@ -52,7 +57,8 @@ def gen_plan(seed, tier):
   nports = cfg["nports"]
   frames = []
   for _ in range(r.randint(3, 8)):
-    frames.append((G.gen_frame(r, rich=True, nhosts=r.pick([2, 4])),
+    frames.append((G.gen_frame(r, rich=True, nhosts=r.pick([2, 4]),
+                               trunc=True),
                    r.randint(1, nports)))
   steps = []
   nent = r.randint(1, 12)
